@@ -22,6 +22,7 @@ func main() {
 	verbose := flag.Bool("v", false, "verbose stage output")
 	verif := flag.String("verif", "/verif", "verification root")
 	workers := flag.Int("workers", 0, "worker count (default GOMAXPROCS)")
+	isoChild := flag.String("isolation-child", "", "internal: run the C04 isolation stage (race build) and write the summary to this file")
 	flag.Parse()
 	debug.SetGCPercent(600)
 	core.VerifDir = *verif
@@ -40,6 +41,9 @@ func main() {
 			os.Exit(3)
 		}
 		seed = v
+	}
+	if *isoChild != "" {
+		os.Exit(mon.RunIsolationChild(seed, *tier, *isoChild))
 	}
 	var rp *core.Replay
 	if *replay != "" {
